@@ -105,6 +105,23 @@ CLAIMED["C18"] = dict(
     note="A5 non-interference argument; A6 irsx memory model; A8; first-use initialisation of function-local statics executed sequentially only.",
     tech=IRSX + "byte-exact written-cell sets inside marked const regions (effect contracts)", ref="4 C18")
 
+CLAIMED["C09"] = dict(
+    text="CBMC function + loop contracts on the control skeleton of minimize extracted from optim.hpp: every accepted step satisfies |f(xp)| <= |f(x)| for each "
+         "disjunct of the source's acceptance condition (incl. IEEE behaviour of the quotients for zero denominators), exit cost <= entry cost, iter <= max_iter, "
+         "MaxIters only with iter == max_iter, loop invariant + variant; both strategies return true only for rho > 0. Convergence to the minimiser (the 1e-3 clause) "
+         "is NOT decided; callees are contract stubs carrying the C10/C07 contracts.",
+    note="Assumed contracts at the stubs (C10 descent property, rplus(x,0)=x, IEEE facts of the two quotients); B2 rewrite rules; verbose blocks dropped; A6 CBMC dfcc + SAT.",
+    tech="CBMC 6.11 function and loop contracts (goto-instrument --dfcc, SAT, bit-precise doubles) on C extracted mechanically from optim.hpp / tr_strategy.hpp",
+    ref="4 C09", engine="cbmc")
+
+CLAIMED["C10"] = dict(
+    text="solve_linear_ldlt / solve_trust_region are executed symbolically including Eigen's dense LDLT (not assumed): on every path reached by random and "
+         "rank-deficient samples the returned dx satisfies the regularised normal equations exactly (3x2 fully symbolic; 4x3 with sampled J and symbolic d, r, lambda), "
+         "lambda = 1/Delta, colwise_norm is the column norm, and the descent identity |r|^2 - |J dx + r|^2 = |J dx|^2 + 2 lambda |D dx|^2 follows as a proved algebraic lemma. "
+         "dphi only by a bounded finite-difference stand-in. Sparse J, sizes beyond 4x3, floating-point backward error and dense/sparse agreement are not decided.",
+    note="A1; A5 (strict convexity => unique minimiser); A6 incl. concolic path discovery (unreached paths uncovered); A7 sizes.",
+    tech=IRSX + "concolic path discovery + exact rational-function normal form (inverse atoms)", ref="4 C10")
+
 NOT_YET = {}
 
 
